@@ -183,6 +183,10 @@ def _check_sort(spec):
     if op["op"] == "sort_values":
         by, asc, nap = op["by"], op["ascending"], op["na_position"]
         sig["multi"] = len(by) > 1
+        # input class of the leading sort key (its quantiles become the divisions): kind, missing values, na_position
+        sig["by_kind"] = next(c["kind"] for c in spec["columns"] if c["name"] == by[0])
+        sig["na_in_by0"] = bool(pdf[by[0]].isna().any())
+        sig["na_position"] = nap
         with C.quiet():
             st_, want = reference(pdf.sort_values, by, ascending=asc if len(by) > 1 else asc[0], na_position=nap, kind="stable")
         if st_ == "err":
@@ -215,6 +219,11 @@ def _check_sort(spec):
         kw.update(sorted=True)
     with impl("set_index", **sig), C.quiet(), _cfg(sig["method"]):
         out = ddf.set_index(col, **kw)
+        divs = tuple(out.divisions)
+    # input-class flag: the collection reports more partitions than its division vector describes (C41's clause; here
+    # it only labels the crash that follows from it)
+    sig["npartitions_ne_divisions"] = out.npartitions != len(divs) - 1
+    with impl("set_index", **sig), C.quiet(), _cfg(sig["method"]):
         got = F.compute(out)
         pgot = C.concat_parts(C.partitions(out), got.iloc[:0])
     ensure(pgot.index.is_monotonic_increasing, f"set_index({col}, {mode}) partitions in order are not sorted: {short(list(pgot.index), 200)}", "not-sorted", view="partitions", **sig)
